@@ -5,7 +5,7 @@ from __future__ import annotations
 from ..model import dims as M
 
 NAMES = ("a", "b", "c")
-VNAMES = ("v", "w")
+VNAMES = ("v", "w", "v", "w", "a")  # "a" is also a single-axis name: separate namespaces, same spelling
 SIZES = (0, 1, 1, 2, 2, 3, 3, 4, 5)
 SYMBOLIC = (
     "a+1",
@@ -27,6 +27,8 @@ SYMBOLIC = (
     "n+1",  # n, m are ARGUMENTS of the call context, not axes: without braces they are unbound names
     "a*m",
     "n",
+    "{h.k}",  # an attribute of a MUTABLE argument: must be read at every check, never cached
+    "{h.k}+a",
 )
 
 
